@@ -206,6 +206,7 @@ class Expander:
         out = []
         for combo in combos:
             new = copy.copy(e)
+            new.__dict__.pop("_sv_norm", None)
             for fname, val in ast.iter_fields(e):
                 if isinstance(val, list):
                     setattr(new, fname, list(val))
@@ -214,6 +215,7 @@ class Expander:
                     setattr(new, fname, v)
                 elif isinstance(idx, tuple):
                     kw = copy.copy(getattr(new, fname)[idx[0]])
+                    kw.__dict__.pop("_sv_norm", None)
                     kw.value = v
                     getattr(new, fname)[idx[0]] = kw
                 else:
